@@ -194,6 +194,22 @@ def make_unit(iset, cube_name, cube_pred, memarch='PMSA', nregions=1, props=('C1
             ob = eng.oblige('frame.own', '%s: no write to an object outside the processor instance' % tag, not eng.foreign_writes,
                             detail='; '.join(eng.foreign_writes[:4]))
             ob.props = ['C20']
+            # hints and barriers (rows marked mock): the hook is reached only when the condition passes, and nothing has changed by then
+            want_ = 'arm' if iset == 'arm' else ('t16' if iset == 'thumb16' else 't32')
+            for r in [r_ for r_ in ENC.rows_for(kname) if r_.iset == want_ and getattr(r_, 'mock', False)]:
+                if getattr(r, 'unconditional', False):
+                    passed_m, cu_m = True, False
+                else:
+                    passed_m, cu_m = PSR.condition_passed('arm' if iset == 'arm' else 'thumb', instr, oplen, init['cpsr'])
+                from spec.cpu import Cpu
+                f_m = r.extract(instr)
+                base_m = Cpu(dict(init), 'arm' if iset == 'arm' else 'thumb', instr, oplen)
+                waive_m = lor(lnot(r.match(instr)), unpred, cu_m, r.sbz_violated(instr), r.unpred(f_m, base_m) if r.unpred is not None else False)
+                named = [(k, lor(waive_m, values_eq(v, init[k]))) for k, v in final.items() if k not in SCRATCH]
+                named.append(('mem', lor(waive_m, sym.SymBool(mem.term == mem.init))))
+                named.append(('condition', lor(waive_m, passed_m)))
+                ob = eng.oblige_all('post', '%s: the hint reaches its (mock) hook only when its condition passes, with the state untouched' % tag, named)
+                ob.props = fams(r, fam)
             return
         # ---- C10 range invariant on every core register, SPSR, PC
         rng = []
